@@ -29,6 +29,7 @@ import (
 
 	"verif/harness/core"
 	"verif/harness/gen"
+	"verif/harness/ref/t87"
 )
 
 const ID = "C10"
@@ -87,6 +88,11 @@ type Action struct {
 	Seq     []int    `json:",omitempty"`
 	Streams []string `json:",omitempty"` // decobj: "plain:<i>", "mct:<i>", "nomct:<i>", "roi:<i>", "part2:<i>"
 	Other   *Other   `json:",omitempty"` // kind "other"
+	// Alt (decode, JPEG-LS syntaxes): frame k of the sequence is the variant stream that carries
+	// an LSE preset-parameters segment (other thresholds than the defaults). What the variant
+	// decodes to alone is the model; a decoder that keeps presets from one frame to the next
+	// shows as a plain frame decoding differently behind a variant.
+	Alt []bool `json:",omitempty"`
 }
 
 // Other is an unrelated call made on the same registered codec between the actions of a
@@ -192,6 +198,9 @@ func Gen(t *rapid.T) *Case {
 			}
 		default:
 			a.Seq = genSeq(t, np)
+			if a.Kind == "decode" && (sx.Key == "80" || sx.Key == "81") {
+				a.Alt = rapid.SliceOfN(rapid.Bool(), len(a.Seq), len(a.Seq)).Draw(t, "alt")
+			}
 			if rapid.IntRange(0, 4).Draw(t, "repeat") == 0 { // the same frame repeated
 				for k := range a.Seq {
 					a.Seq[k] = a.Seq[0]
@@ -236,6 +245,32 @@ type env struct {
 	frames [][]byte
 	encOne [][]byte // model: fresh single-frame encode
 	decOne [][]byte // model: fresh single-frame decode of encOne[i]
+	encAlt [][]byte // JPEG-LS: encOne[i] with an LSE preset segment inserted (nil if not applicable)
+	decAlt [][]byte // what encAlt[i] decodes to alone (nil if that call fails)
+}
+
+// withLSE inserts an LSE preset-parameters segment (ID 1) with thresholds one, two and three
+// above the defaults of (MAXVAL, NEAR) in front of the SOS of a JPEG-LS stream.
+func withLSE(s []byte, maxval int) []byte {
+	for i := 2; i+4 < len(s); {
+		if s[i] != 0xFF {
+			return nil
+		}
+		l := int(s[i+2])<<8 | int(s[i+3])
+		if s[i+1] == 0xDA {
+			ns := int(s[i+4])
+			if i+5+2*ns >= len(s) {
+				return nil
+			}
+			near := int(s[i+5+2*ns])
+			t1, t2, t3, _, _, _ := t87.Defaults(maxval, near)
+			t1, t2, t3 = min(t1+1, maxval), min(t2+2, maxval), min(t3+3, maxval)
+			lse := []byte{0xFF, 0xF8, 0x00, 0x0D, 0x01, byte(maxval >> 8), byte(maxval), byte(t1 >> 8), byte(t1), byte(t2 >> 8), byte(t2), byte(t3 >> 8), byte(t3), 0x00, 0x40}
+			return append(append(append([]byte(nil), s[:i]...), lse...), s[i:]...)
+		}
+		i += 2 + l
+	}
+	return nil
 }
 
 func (e *env) encodeFrames(idx []int) ([][]byte, [][]byte, error) {
@@ -428,6 +463,17 @@ func Check(c *Case) (o core.Outcome) {
 			}
 		}
 		e.decOne = append(e.decOne, dec[0])
+		var alt, altDec []byte
+		if sx.Key == "80" || sx.Key == "81" {
+			if alt = withLSE(enc[0], 1<<uint(c.BS)-1); alt != nil {
+				if d, _, err := e.decodeFrames([][]byte{alt}); err == nil && len(d) == 1 {
+					altDec = d[0]
+				} else {
+					alt = nil
+				}
+			}
+		}
+		e.encAlt, e.decAlt = append(e.encAlt, alt), append(e.decAlt, altDec)
 	}
 
 	for ai, a := range c.Actions {
@@ -494,9 +540,14 @@ func Check(c *Case) (o core.Outcome) {
 				}
 			}
 		case "decode":
-			var streams [][]byte
-			for _, i := range a.Seq {
-				streams = append(streams, e.encOne[i])
+			var streams, wantOut [][]byte
+			for k, i := range a.Seq {
+				if k < len(a.Alt) && a.Alt[k] && e.encAlt[i] != nil {
+					streams, wantOut = append(streams, e.encAlt[i]), append(wantOut, e.decAlt[i])
+					o.Label("lse-variant-frame")
+				} else {
+					streams, wantOut = append(streams, e.encOne[i]), append(wantOut, e.decOne[i])
+				}
 			}
 			out, copies, err := e.decodeFrames(streams)
 			if err != nil {
@@ -508,11 +559,11 @@ func Check(c *Case) (o core.Outcome) {
 				return
 			}
 			for k, i := range a.Seq {
-				if !bytes.Equal(copies[k], e.encOne[i]) {
+				if !bytes.Equal(copies[k], streams[k]) {
 					o.Fail = core.Failf("input-modified", "action %d: Decode modified input frame %d", ai, k)
 					return
 				}
-				if !bytes.Equal(out[k], e.decOne[i]) {
+				if !bytes.Equal(out[k], wantOut[k]) {
 					o.Fail = core.Failf("frame-dependence", "action %d (decode %v): output %d differs from decoding pool frame %d alone", ai, a.Seq, k, i)
 					return
 				}
